@@ -368,6 +368,7 @@ func Load(configDetails types.ConfigDetails, options ...func(*Options)) (*types.
 // LoadWithContext reads a ConfigDetails and returns a fully loaded configuration as a compose-go Project
 func LoadWithContext(ctx context.Context, configDetails types.ConfigDetails, options ...func(*Options)) (*types.Project, error) {
 	opts := toOptions(&configDetails, options)
+	verifPhase(opts, "load{project")
 	dict, err := loadModelWithContext(ctx, &configDetails, opts)
 	if err != nil {
 		return nil, err
@@ -378,6 +379,7 @@ func LoadWithContext(ctx context.Context, configDetails types.ConfigDetails, opt
 // LoadModelWithContext reads a ConfigDetails and returns a fully loaded configuration as a yaml dictionary
 func LoadModelWithContext(ctx context.Context, configDetails types.ConfigDetails, options ...func(*Options)) (map[string]any, error) {
 	opts := toOptions(&configDetails, options)
+	verifPhase(opts, "load{model")
 	return loadModelWithContext(ctx, &configDetails, opts)
 }
 
@@ -391,6 +393,7 @@ func loadModelWithContext(ctx context.Context, configDetails *types.ConfigDetail
 	if err != nil {
 		return nil, err
 	}
+	verifPhase(opts, "project-name")
 
 	return load(ctx, *configDetails, opts, nil)
 }
@@ -418,6 +421,7 @@ func loadYamlModel(ctx context.Context, config types.ConfigDetails, opts *Option
 		err  error
 	)
 	workingDir, environment := config.WorkingDir, config.Environment
+	verifPhase(opts, "model{")
 
 	for _, file := range config.ConfigFiles {
 		dict, _, err = loadYamlFile(ctx, file, opts, workingDir, environment, ct, dict, included)
@@ -431,12 +435,14 @@ func loadYamlModel(ctx context.Context, config types.ConfigDetails, opts *Option
 		if err != nil {
 			return nil, err
 		}
+		verifPhase(opts, "defaults")
 	}
 
 	if !opts.SkipValidation {
 		if err := validation.Validate(dict); err != nil {
 			return nil, err
 		}
+		verifPhase(opts, "validate")
 	}
 
 	if opts.ResolvePaths {
@@ -448,8 +454,10 @@ func loadYamlModel(ctx context.Context, config types.ConfigDetails, opts *Option
 		if err != nil {
 			return nil, err
 		}
+		verifPhase(opts, "resolve-paths")
 	}
 	ResolveEnvironment(dict, config.Environment)
+	verifPhase(opts, "}model")
 
 	return dict, nil
 }
@@ -463,6 +471,7 @@ func loadYamlFile(ctx context.Context, file types.ConfigFile, opts *Options, wor
 		}
 		file.Content = content
 	}
+	verifPhase(opts, "file{")
 
 	processRawYaml := func(raw interface{}, processors ...PostProcessor) error {
 		converted, err := convertToStringKeysRecursive(raw, "")
@@ -473,12 +482,14 @@ func loadYamlFile(ctx context.Context, file types.ConfigFile, opts *Options, wor
 		if !ok {
 			return errors.New("Top-level object must be a mapping")
 		}
+		verifPhase(opts, "doc{")
 
 		if opts.Interpolate != nil && !opts.SkipInterpolation {
 			cfg, err = interp.Interpolate(cfg, *opts.Interpolate)
 			if err != nil {
 				return err
 			}
+			verifPhase(opts, "interpolate")
 		}
 
 		fixEmptyNotNull(cfg)
@@ -488,6 +499,7 @@ func loadYamlFile(ctx context.Context, file types.ConfigFile, opts *Options, wor
 			if err != nil {
 				return err
 			}
+			verifPhase(opts, "extends")
 		}
 
 		for _, processor := range processors {
@@ -502,6 +514,7 @@ func loadYamlFile(ctx context.Context, file types.ConfigFile, opts *Options, wor
 			if err != nil {
 				return err
 			}
+			verifPhase(opts, "include")
 		}
 
 		dict, err = override.Merge(dict, cfg)
@@ -513,6 +526,7 @@ func loadYamlFile(ctx context.Context, file types.ConfigFile, opts *Options, wor
 		if err != nil {
 			return err
 		}
+		verifPhase(opts, "merge")
 
 		if !opts.SkipValidation {
 			if err := schema.Validate(dict); err != nil {
@@ -522,12 +536,14 @@ func loadYamlFile(ctx context.Context, file types.ConfigFile, opts *Options, wor
 				opts.warnObsoleteVersion(file.Filename)
 				delete(dict, "version")
 			}
+			verifPhase(opts, "schema")
 		}
 
 		dict, err = transform.Canonical(dict, opts.SkipInterpolation)
 		if err != nil {
 			return err
 		}
+		verifPhase(opts, "canonical")
 
 		dict = OmitEmpty(dict)
 
@@ -554,12 +570,15 @@ func loadYamlFile(ctx context.Context, file types.ConfigFile, opts *Options, wor
 			if err := processRawYaml(raw, processor); err != nil {
 				return nil, nil, err
 			}
+			verifPhase(opts, "}doc")
 		}
 	} else {
 		if err := processRawYaml(file.Config); err != nil {
 			return nil, nil, err
 		}
+		verifPhase(opts, "}doc")
 	}
+	verifPhase(opts, "}file")
 	return dict, processor, nil
 }
 
@@ -592,6 +611,7 @@ func load(ctx context.Context, configDetails types.ConfigDetails, opts *Options,
 		if err != nil {
 			return nil, err
 		}
+		verifPhase(opts, "normalize")
 	}
 
 	return dict, nil
@@ -616,6 +636,7 @@ func modelToProject(dict map[string]interface{}, opts *Options, configDetails ty
 	if err != nil {
 		return nil, err
 	}
+	verifPhase(opts, "bind")
 
 	if opts.ConvertWindowsPaths {
 		for i, service := range project.Services {
@@ -629,12 +650,14 @@ func modelToProject(dict map[string]interface{}, opts *Options, configDetails ty
 	if project, err = project.WithProfiles(opts.Profiles); err != nil {
 		return nil, err
 	}
+	verifPhase(opts, "profiles")
 
 	if !opts.SkipConsistencyCheck {
 		err := checkConsistency(project)
 		if err != nil {
 			return nil, err
 		}
+		verifPhase(opts, "consistency")
 	}
 
 	if !opts.SkipResolveEnvironment {
@@ -642,12 +665,14 @@ func modelToProject(dict map[string]interface{}, opts *Options, configDetails ty
 		if err != nil {
 			return nil, err
 		}
+		verifPhase(opts, "environment")
 	}
 
 	project, err = project.WithServicesLabelsResolved(opts.discardEnvFiles)
 	if err != nil {
 		return nil, err
 	}
+	verifPhase(opts, "done")
 
 	return project, nil
 }
